@@ -741,8 +741,8 @@ fn sourced_expr_list(input: Span) -> IResult<Span, Vec<(String, Expr)>> {
 
 fn sort_mode(input: Span) -> IResult<Span, SortMode> {
     alt((
-        alt((tag("asc"), tag("ascending"))).map(|_| SortMode::Ascending),
-        alt((tag("desc"), tag("dsc"), tag("descending"))).map(|_| SortMode::Descending),
+        alt((tag("ascending"), tag("asc"))).map(|_| SortMode::Ascending),
+        alt((tag("descending"), tag("desc"), tag("dsc"))).map(|_| SortMode::Descending),
     ))(input)
 }
 
